@@ -60,4 +60,6 @@ def cmdExpr (j : Json) : R Json := do
   pure (obj [("value", putFB v), ("error", putFB er), ("derivs", Json.arr ds.toArray),
     ("sources", Json.arr ((Expr.sources e).map (fun (n : Nat) => (n : Json))).toArray)])
 
+def exprCmds : List (String × (Json → R Json)) := [("expr", cmdExpr)]
+
 end QExPy.Drv
